@@ -1,5 +1,6 @@
 import PV.C05.Spec
 import PV.C05.Lemmas
+import PV.C05.Global
 /-
   C05 — the token stream tiles the source: property theorems.
 
@@ -97,5 +98,83 @@ theorem tokens_ordered_disjoint {cfg : Cfg} (hs : cfg.up.Sane) {mode : Mode} {k 
     unfold bytePos
     have := utf8Len_take_mono src hab
     omega
+
+/-! ### the text under each token spells that token -/
+
+/-- `Spells tok text` (PV/C05/Spec.lean): a name's value is its text; a keyword / operator token covers
+    exactly CPython's spelling of it; an integer's value is the value of its digits; a float / imaginary
+    token's numeral (underscores removed) is its text; a string token covers prefix, both quotes and the
+    body whose line-break-normalised text is its value; comments and non-logical newlines (full lexer)
+    carry their exact text; NEWLINE covers one line break (or nothing, at end of input); INDENT covers a
+    non-empty run of spaces / tabs; DEDENT is empty. -/
+theorem token_text_spells {cfg : Cfg} (hs : cfg.up.Sane) {mode : Mode} {k : Nat} {src : List Nat} {out : LexOut}
+    (h : lex cfg mode k src = some out) : ∀ t ∈ out.toks, Spells t.tok (tokText src t) := by
+  unfold lex at h
+  cases hr : lexRaw cfg k src with
+  | none => simp [hr] at h
+  | some o =>
+    simp [hr] at h; subst h
+    have R := (lexRaw_props hs hr).1
+    intro t ht
+    obtain ⟨t', ht', e1, e2, _, _, hk⟩ := softKwGo_mem_tok ht
+    have S := R t' ht'
+    have et : tokText src t = tokText src t' := by simp [tokText, e1, e2]
+    rw [et]
+    rcases hk with hk | ⟨kw, hk1, hk2⟩
+    · rw [hk]; exact S
+    · rw [hk2]; rw [hk1] at S; simpa [Spells] using S
+
+example : Spells (.op .RightShiftEqual) [62, 62, 61] := by simp [Spells, opText]
+example : Spells (.int 255) [48, 120, 70, 95, 102] := by simp only [Spells]; decide
+example : Spells (.string [97, 10, 98] .rawBytes true) [82, 98, 39, 39, 39, 97, 13, 10, 98, 39, 39, 39] :=
+  ⟨[82, 98], 39, [97, 13, 10, 98], Or.inr rfl, by decide, by decide, by decide⟩
+
+/-! ### NEWLINE only outside brackets; INDENT / DEDENT balanced -/
+
+/-- every `Newline` token stands at bracket depth 0, the depth being counted from the bracket
+    tokens in front of it -/
+theorem newline_only_at_depth0 {cfg : Cfg} (hs : cfg.up.Sane) {mode : Mode} {k : Nat} {src : List Nat}
+    {out : LexOut} (h : lex cfg mode k src = some out) : NewlinesAtDepth0 0 (out.toks.map (·.tok)) := by
+  unfold lex at h
+  cases hr : lexRaw cfg k src with
+  | none => simp [hr] at h
+  | some o =>
+    simp [hr] at h; subst h
+    exact (softKwGo_newlines _ _ _).mpr (lexRaw_props hs hr).2.1
+
+/-- at every point of the stream there have been at least as many INDENTs as DEDENTs, and when the
+    text lexes without error the two numbers are equal at the end -/
+theorem indents_balanced {cfg : Cfg} (hs : cfg.up.Sane) {mode : Mode} {k : Nat} {src : List Nat}
+    {out : LexOut} (h : lex cfg mode k src = some out) :
+    ∃ b, indentBalance 0 (out.toks.map (·.tok)) = some b ∧ (out.fin = .eof → b = 0) := by
+  unfold lex at h
+  cases hr : lexRaw cfg k src with
+  | none => simp [hr] at h
+  | some o =>
+    simp [hr] at h; subst h
+    simp only [softKw, softKwGo_balance]
+    exact (lexRaw_props hs hr).2.2.1
+
+example : indentBalance 0 [.kw .If, .indent, .name [120], .newline, .dedent] = some 0 := by decide
+example : indentBalance 0 [.dedent] = none := by decide
+
+/-! ### the full lexer tiles the source -/
+
+/-- With `full-lexer` (comments and non-logical newlines are tokens) a text that lexes without error is
+    tiled by its tokens: what lies in front of the first token (behind a byte-order mark), between two
+    consecutive tokens and after the last token consists only of blanks, tabs, form feeds and
+    backslash-newline joins. -/
+theorem full_lexer_tiles {cfg : Cfg} (hs : cfg.up.Sane) (hf : cfg.fullLexer = true) {mode : Mode} {k : Nat}
+    {src : List Nat} {out : LexOut} (h : lex cfg mode k src = some out) (hok : out.fin = .eof) :
+    Tiles GF src out.toks := by
+  unfold lex at h
+  cases hr : lexRaw cfg k src with
+  | none => simp [hr] at h
+  | some o =>
+    simp [hr] at h; subst h
+    have := (lexRaw_props hs hr).2.2.2 hf hok
+    simpa [Tiles, softKw, softKwGo_cspans] using this
+
+example : ∃ out, lex ⟨true, asciiParams⟩ .module 0 exSrc = some out ∧ out.fin = .eof := by decide
 
 end PV.C05
